@@ -24,6 +24,7 @@ from .. import expr, gen, runner, seeds, tlc, tracecheck
 from ..common import Check, scratch, scratch_root
 
 LEVEL = "model_checking"
+RULE = ('cases = expressions of ExprRewrite.tla run through the real codemods, seed programs executed before/after, and WithScope.tla statement orders; non-trivial when the codemod changed the expression / program; distinct = distinct rendered expressions, (codemod, seed) pairs and statement shapes')
 
 
 def _mc(chk: Check, vc: str, vi: str, depth: int, sample: int, tuple_names: bool = False, dump: bool = False, seed: int = 0):
@@ -42,8 +43,8 @@ def check_rules(chk: Check) -> None:
     chk.add_tlc(res)
     if res.violated:
         raise tlc.TlcFailure(f"the repaired rules of ExprRewrite.tla are not behaviour preserving: {res.violated[0][2][-1]}")
-    # ---- conformance of the tree (combine: as pinned; invert: repaired) on depth <= 1 exhaustively + sampled depth 2
-    gen_res = _mc(chk, "pinned", "repaired", 1, chk.pick(500, 6000), dump=True, seed=chk.seed + 1)
+    # ---- conformance of the tree (combine: as pinned; invert: as in the tree) on depth <= 1 exhaustively + sampled depth 2
+    gen_res = _mc(chk, "pinned", "tree", 1, chk.pick(500, 6000), dump=True, seed=chk.seed + 1)
     chk.add_tlc(gen_res)
     cases = [(st["e"], st["res"]) for st in gen_res.dump if st["st"] == "done"]
     cases.sort(key=lambda c: json.dumps(expr.canon(c[0]), sort_keys=True, default=str))
@@ -108,6 +109,8 @@ def check_rules(chk: Check) -> None:
                 sig = "C08|combine|argument-name-bound-to-a-tuple"
             elif v == "differs" and m["as_predicted"] and not m["ideal"] and e["t"] == "bop" and _has_and(e):
                 sig = "C08|combine|fold-into-inner-and"
+            elif v == "differs" and m["as_predicted"] and not m["ideal"] and e["t"] == "not" and e["e"]["t"] == "cmp" and e["e"]["rest"][0]["op"] == "is" and e["e"]["rest"][0]["right"]["k"] == "blit":
+                sig = "C08|invert|not-x-is-True-or-False-with-a-non-bool-x"
             else:
                 sig = f"C08|rules|{m['src']}"
             chk.violation(sig, f"`{m['src']}` is rewritten to `{m['out']}`: {v} (TLC evaluator over all assignments)", {"source": m["src"], "result": m["out"], "verdict": v})
@@ -249,9 +252,278 @@ def check_observed(chk: Check) -> None:
     chk.coverage["programs_executed"] = len(jobs)
 
 
+# ---------------------------------------------------------------------------------------------- `with` wrapping
+def _render_scope(p) -> str:
+    lines = ["import pathlib", 'pathlib.Path("data.txt").write_text("l1\\nl2\\nl3\\nl4\\nl5\\n")', 'f = open("data.txt")']
+    for s in p:
+        if s["k"] == "alias":
+            lines.append(f"{s['new']} = {s['old']}")
+        elif s["k"] == "use":
+            lines.append(f"print({s['n']}.readline().strip())")
+        elif s["k"] == "ifuse":
+            lines += ["if len(__name__) > 0:", f"    print({s['n']}.readline().strip())"]
+        else:
+            lines.append('print("mid")')
+    lines.append('print("end")')
+    return "\n".join(lines) + "\n"
+
+
+def _block_extent(text: str, nstmts: int):
+    """Number of the program's statements s1..sn that the rewritten text holds inside `with open("data.txt") ...`;
+    None when there is no such block."""
+    import ast
+
+    tree = ast.parse(text)
+    for i, node in enumerate(tree.body):
+        if isinstance(node, ast.With) and any(isinstance(it.context_expr, ast.Call) and getattr(it.context_expr.func, "id", "") == "open" for it in node.items):
+            after = len(tree.body) - i - 1  # statements left behind the block, the final print("end") among them
+            return nstmts - (after - 1)
+    return None
+
+
+def _expected_stdout(out) -> str:
+    toks = []
+    for t in out:
+        if t == "end":
+            toks.append("end")
+        elif t == "mid":
+            toks.append("mid")
+        elif t == "ValueError":
+            toks.append("EXC ValueError")
+        else:
+            toks.append(f"l{t[1]}")
+    return "rc=0\n" + "".join(x + "\n" for x in toks)
+
+
+def check_with_scope(chk: Check) -> None:
+    """WithScope.tla: the family of alias / read orders after `f = open(...)`; TLC decides which block extents
+    preserve behaviour, the real codemod's block is measured against that and both programs are executed."""
+    from concurrent.futures import ThreadPoolExecutor
+
+    res = gen.run_generator("WithScope", None, None, cfg="WithScope.cfg")
+    chk.add_tlc(res)
+    progs = [(st["p"], st["exp"]) for st in res.dump if st["st"] == "done"]
+    progs.sort(key=lambda x: json.dumps(expr.canon(x[0]), sort_keys=True, default=str))
+    import random
+
+    rnd = random.Random(chk.seed)
+    n = chk.pick(220, len(progs))
+    if n < len(progs):
+        # every program of <= 3 statements, a seeded sample of the longer ones
+        short = [x for x in progs if len(x[0]) <= 3]
+        longer = [x for x in progs if len(x[0]) > 3]
+        progs = short + rnd.sample(longer, max(0, min(len(longer), n - len(short))))
+    files = {f"w{i:04d}.py": _render_scope(p) for i, (p, _e) in enumerate(progs)}
+    names = sorted(files)
+    per = max(1, (len(names) + 15) // 16)
+    scns = [{"id": f"C08-withscope-{b // per}", "files": {r: files[r] for r in names[b : b + per]},
+             "steps": [{"argv": ["{dir}", "--output", "{out}", "--codemod-include", "pixee:python/fix-file-resource-leak"], "keep_after": True}]}
+            for b in range(0, len(names), per)]
+    sts = [r["steps"][0] for r in runner.run_many(scns)]
+    after_all = {}
+    for st_ in sts:
+        after_all.update(st_["after"])
+    jobs = []
+    for i, (p, e) in enumerate(progs):
+        rel = f"w{i:04d}.py"
+        before, after = files[rel], after_all.get(rel, files[rel])
+        jobs.append((p, e, before, after))
+    with ThreadPoolExecutor(max_workers=16) as ex:
+        outs = list(ex.map(lambda j: (_execute(j[2]), _execute(j[3]) if j[3] != j[2] else None), jobs))
+    all_same = True
+    rewritten = 0
+    for (p, e, before, after), (o1, o2) in zip(jobs, outs):
+        chk.count()
+        shape = " ; ".join(s["k"] + ":" + (s.get("n") or (s.get("new", "") + "=" + s.get("old", ""))) for s in p)
+        if o1 != _expected_stdout(e["out"]):
+            raise tlc.TlcFailure(f"WithScope.tla's execution of [{shape}] is {_expected_stdout(e['out'])!r} but Python prints {o1!r}: the model of the statements is wrong")
+        if after == before:
+            continue
+        rewritten += 1
+        chk.nontrivial(shape)
+        try:
+            extent = _block_extent(after, len(p))
+        except SyntaxError:
+            extent = None
+        if extent is not None and extent < e["minEnd"]:
+            all_same = False
+            chk.violation(f"C08|withscope|extent|{shape}", f"fix-file-resource-leak closes the file after statement {extent} of [{shape}] although statement {e['minEnd']} still reads it "
+                          f"(WithScope.tla: C08_ExtentPreservesIffCoversLastRead)", {"before": before, "after": after, "extent": extent, "minEnd": e["minEnd"]})
+        elif o2 != o1:
+            all_same = False
+            chk.violation(f"C08|withscope|observed|{shape}", f"fix-file-resource-leak on [{shape}]: output before {o1!r} after {o2!r}", {"before": before, "after": after, "out_before": o1, "out_after": o2})
+    sts[0]["trace"]["events"].append({"ev": "Compare", "what": "rewritten-program-behaves-differently", "equal": all_same})
+    verdicts, stats = tracecheck.validate([st_["trace"] for st_ in sts])
+    for s in stats:
+        chk.add_tlc(s)
+    chk.coverage["traces_validated_against_impl"] += len(sts)
+    chk.coverage["with_scope_programs"] = len(progs)
+    chk.coverage["with_scope_rewritten"] = rewritten
+
+
+# ---------------------------------------------------------------------------------------------- SQL parameterization
+SQL_FORMS = ["concat", "assigned", "fstring", "percent"]
+_ROWS = None
+
+
+def _sql_rows():
+    global _ROWS
+    if _ROWS is None:
+        import itertools
+
+        ks = [""] + ["".join(t) for n in (1, 2, 3) for t in itertools.product("ab{}%", repeat=n)]
+        _ROWS = [(k, 1 + (i % 2), f"r{i}") for i, k in enumerate(ks)]
+    return _ROWS
+
+
+def _sql_program(pieces, form: str):
+    """(program text, hole names in order) for the query built from `pieces` in the given Python form; None when
+    the form does not apply."""
+    holes, parts = [], []
+    for pc in pieces:
+        if pc["lit"]:
+            parts.append(("lit", "".join(a["s"] for a in pc["atoms"])))
+        else:
+            a = pc["atoms"][0]
+            name = f"h{a['c']}_{a['tag']}"
+            holes.append((name, a))
+            parts.append(("hole", name))
+    if form in ("concat", "assigned"):
+        expr_ = " + ".join(repr(t) if k == "lit" else t for k, t in parts)
+        # repr() picks double quotes for text holding a single quote
+    elif form == "fstring":
+        body = "".join(t.replace("{", "{{").replace("}", "}}") if k == "lit" else "{" + t + "}" for k, t in parts)
+        expr_ = 'f"' + body + '"'
+    elif form == "percent":
+        if not holes:
+            return None
+        body = "".join(t.replace("%", "%%") if k == "lit" else "%s" for k, t in parts)
+        names = ", ".join(n for n, _a in holes)
+        expr_ = '"' + body + '" % (' + names + ("," if len(holes) == 1 else "") + ")"
+    else:
+        raise ValueError(form)
+    args = "".join(", " + n for n, _a in holes)
+    lines = ["import sqlite3", "", "", f"def lookup(cur{args}):"]
+    if form == "assigned":
+        lines += [f"    sql = {expr_}", "    cur.execute(sql)"]
+    else:
+        lines += [f"    cur.execute({expr_})"]
+    lines += ["    return cur.fetchall()", "", "",
+              'conn = sqlite3.connect(":memory:")', "c0 = conn.cursor()",
+              'c0.executescript("CREATE TABLE t (k TEXT, n INTEGER, v TEXT)")',
+              f"c0.executemany('INSERT INTO t VALUES (?, ?, ?)', {_sql_rows()!r})"]
+    for val_q, val_b in (("b", "1"), ("ab", "2")):
+        vals = ", ".join(repr(val_b if a["tag"] == "1" and not _quoted_hole(pieces, a) else val_q) for _n, a in holes)
+        lines.append(f"print(sorted(lookup(conn.cursor(){', ' if vals else ''}{vals})))")
+    return "\n".join(lines) + "\n", [n for n, _a in holes]
+
+
+def _quoted_hole(pieces, atom) -> bool:
+    """is the hole inside a quoted value (quote parity of the flat atom sequence before it)?"""
+    n = 0
+    for pc in pieces:
+        for a in pc["atoms"]:
+            if a is atom:
+                return n % 2 == 1
+            if a["k"] == "q":
+                n += 1
+    return False
+
+
+def _execute_args(text: str):
+    """(number of `?` in the string literals of lookup's execute call, arity of its parameter tuple)"""
+    import ast
+
+    tree = ast.parse(text)
+    fn = next(n for n in tree.body if isinstance(n, ast.FunctionDef) and n.name == "lookup")
+    call = next(n for n in ast.walk(fn) if isinstance(n, ast.Call) and isinstance(n.func, ast.Attribute) and n.func.attr == "execute")
+    marks = sum(c.value.count("?") for n in ast.walk(fn) for c in [n] if isinstance(c, ast.Constant) and isinstance(c.value, str))
+    arity = len(call.args[1].elts) if len(call.args) > 1 and isinstance(call.args[1], ast.Tuple) else (0 if len(call.args) < 2 else -1)
+    return marks, arity
+
+
+def check_sql(chk: Check) -> None:
+    """SqlParam.tla: queries x piece layouts; TLC decides that the piece-level rule of the codemod finds complete
+    quoted values only; every query is rendered in several Python forms, rewritten by the real codemod, compared
+    with the transcription and executed on sqlite3 before and after."""
+    import random
+    from concurrent.futures import ThreadPoolExecutor
+
+    res = gen.run_generator("SqlParam", None, None, cfg="SqlParam.cfg")
+    chk.add_tlc(res)
+    cases = [(st["qy"], st["mode"], st["exp"], st["tc"]) for st in res.dump if st["st"] == "done"]
+    cases.sort(key=lambda x: json.dumps(expr.canon([x[0], x[1], x[3]]), sort_keys=True, default=str))
+    rnd = random.Random(chk.seed + 8)
+    progs = []
+    for qy, mode, e, tc in cases:
+        for form in SQL_FORMS:
+            if form in ("fstring", "percent") and mode != "none":
+                continue  # one literal: the cut of the text between holes does not exist in these forms
+            built = _sql_program(e["pieces"], form)
+            if built is None:
+                continue
+            progs.append((qy, mode, form, e, built[0], tc))
+    n = chk.pick(260, len(progs))
+    if n < len(progs):
+        one = [x for x in progs if len(x[0]) == 1 and (x[5] == "a" or x[1] == "none")]
+        two = [x for x in progs if x not in one]
+        progs = one + rnd.sample(two, max(0, min(len(two), n - len(one))))
+    files = {f"q{i:04d}.py": pr[4] for i, pr in enumerate(progs)}
+    names = sorted(files)
+    per = max(1, (len(names) + 15) // 16)
+    scns = [{"id": f"C08-sql-{b // per}", "files": {r: files[r] for r in names[b : b + per]},
+             "steps": [{"argv": ["{dir}", "--output", "{out}", "--codemod-include", "pixee:python/sql-parameterization"], "keep_after": True}]}
+            for b in range(0, len(names), per)]
+    sts = [r["steps"][0] for r in runner.run_many(scns)]
+    after_all = {}
+    for st_ in sts:
+        after_all.update(st_["after"])
+    jobs = []
+    for i, pr in enumerate(progs):
+        rel = f"q{i:04d}.py"
+        jobs.append((pr, files[rel], after_all.get(rel, files[rel])))
+    with ThreadPoolExecutor(max_workers=16) as ex:
+        outs = list(ex.map(lambda j: (_execute(j[1]), _execute(j[2]) if j[2] != j[1] else None), jobs))
+    all_same = True
+    rewritten = deviates = 0
+    for ((qy, mode, form, e, _t, tc), before, after), (o1, o2) in zip(jobs, outs):
+        chk.count()
+        shape = f"{form}/{mode}/" + " OR ".join(("'" + "".join(v["items"]).replace("a", tc) + "'") if v["q"] else "h" for v in qy)
+        if "EXC" in o1 or not o1.startswith("rc=0"):
+            raise tlc.TlcFailure(f"the generated SQL program [{shape}] does not run: {o1[:300]}")
+        if after == before:
+            if e["found"]:
+                deviates += 1
+            continue
+        rewritten += 1
+        chk.nontrivial(shape)
+        try:
+            marks, arity = _execute_args(after)
+        except Exception:  # noqa: BLE001
+            marks = arity = -2
+        if (marks, arity) != (len(e["found"]), len(e["found"])):
+            deviates += 1
+        if o2 != o1:
+            all_same = False
+            chk.violation(f"C08|sql|{shape}", f"sql-parameterization on [{shape}]: rows before {o1[:200]!r} after {o2[:200]!r} ({marks} placeholders, {arity} parameters; "
+                          f"SqlParam.tla finds {len(e['found'])})", {"before": before, "after": after, "out_before": o1, "out_after": o2})
+    sts[0]["trace"]["events"].append({"ev": "Compare", "what": "rewritten-program-behaves-differently", "equal": all_same})
+    verdicts, stats = tracecheck.validate([st_["trace"] for st_ in sts])
+    for s_ in stats:
+        chk.add_tlc(s_)
+    chk.coverage["traces_validated_against_impl"] += len(sts)
+    chk.coverage["sql_programs"] = len(progs)
+    chk.coverage["sql_rewritten"] = rewritten
+    chk.coverage["sql_code_deviates_from_transcription"] = deviates
+    if progs:
+        chk.sample({"sql_program": progs[len(progs) // 2][4]})
+
+
 def run(chk: Check) -> None:
     check_rules(chk)
     check_observed(chk)
+    check_with_scope(chk)
+    check_sql(chk)
     chk.assumptions += [
         "rules: operands are small integers / tuples of them, string-typed arguments; exceptions raised by operand evaluation are not modelled",
         "observed: the repository's seed snippets run closed under a stand-in for every free name; programs outside the seeds are not covered",
